@@ -1,5 +1,7 @@
 import FCA.Proofs.Galois
 import FCA.Proofs.Powerset
+import FCA.Proofs.LatticeSpec
+import FCA.Model.Render
 /-
 C18 — `Concept.attributes()` / `Concept.minimal()` (`Context._minimize`, `bitsets` `powerset()`):
 
@@ -142,6 +144,165 @@ example : isConcept C18_exK 0 0b111 := by
   · decide +kernel
 example : minimize C18_exK 0 0b111 = [0b111] := C18_empty_extent _ _
 
+/-! ### the shortlex order is asymmetric: "the first" generator is well defined -/
+
+theorem C18_shortlex_asymm (w a b : Nat) (h : shortlexLt w a b) : ¬ shortlexLt w b a := by
+  rintro (h' | ⟨he', j, hj1, hj2, hj3⟩)
+  · rcases h with h | ⟨he, _⟩ <;> omega
+  · rcases h with h | ⟨_, i, hi1, hi2, hi3⟩
+    · omega
+    · rcases Nat.lt_trichotomy i j with hij | hij | hij
+      · exact hi2 ((hj3 i hij).mpr hi1)
+      · subst hij; exact hi2 hj1
+      · exact hj2 ((hi3 j hij).mpr hj1)
+
+/-! ### `Concept.minimal()` / `Infimum.minimal()` on the concepts of a lattice (`conceptMinimal`) -/
+
+/-- the concept at a position of `Context.lattice` is a formal concept -/
+theorem C18_lattice_isConcept {K : Ctx} (hK : K.WF) {k : Nat} {c : LConcept}
+    (hc : (mkLattice K)[k]? = some c) : isConcept K c.extent c.intent := by
+  have S := mkLattice_spec hK
+  exact isConcept_iff_closed.mpr ⟨S.closed hc, S.intent hc⟩
+
+/-- the intent of an empty extent is the set of all properties -/
+theorem C18_intent_of_empty (K : Ctx) : K.intentOf 0 = full K.m := by
+  apply ext; intro j
+  unfold Ctx.intentOf
+  rw [mem_primeOf]
+  exact ⟨fun h => h.1, fun h => ⟨h, fun k hk => absurd hk not_mem_zero⟩⟩
+
+/-- only the first concept (the infimum) can have an empty extent, and then its intent is the set of
+all properties -/
+theorem C18_empty_extent_position {K : Ctx} (hK : K.WF) {k : Nat} {c : LConcept}
+    (hc : (mkLattice K)[k]? = some c) (he : c.extent = 0) : k = 0 ∧ c.intent = full K.m := by
+  have S := mkLattice_spec hK
+  obtain ⟨c0, hc0, hc0e⟩ := S.get_zero
+  have hcl := (S.closed hc).2
+  rw [he] at hcl
+  refine ⟨S.pos_inj hc hc0 (by rw [he, hc0e, hcl]), ?_⟩
+  rw [S.intent hc, he]
+  exact C18_intent_of_empty K
+
+/-- `minimal()` is the first element of `attributes()`, for every concept of every lattice (list of
+concepts) — the `Infimum` override included: it only applies when the extent is empty, where
+`attributes()` yields just the intent -/
+theorem C18_minimal_eq_head (K : Ctx) (L : Lattice) {k : Nat} {c : LConcept} (hc : L[k]? = some c) :
+    conceptMinimal K L k = (minimize K c.extent c.intent).head? ∧
+    conceptMinimal K L k = (conceptAttributes K L k).head? := by
+  have h1 : conceptMinimal K L k = (minimize K c.extent c.intent).head? := by
+    unfold conceptMinimal
+    rw [hc, Option.bind_some]
+    split
+    · rename_i h
+      rw [h.2, C18_empty_extent_head]
+    · rfl
+  refine ⟨h1, ?_⟩
+  rw [h1]
+  unfold conceptAttributes
+  rw [hc]
+
+/-- outside the lattice there is no concept -/
+theorem C18_minimal_none (K : Ctx) (L : Lattice) {k : Nat} (hk : L.length ≤ k) :
+    conceptMinimal K L k = none := by
+  unfold conceptMinimal
+  rw [List.getElem?_eq_none hk]
+  rfl
+
+/-- `minimal()` of a concept of `Context.lattice`: with a non-empty extent it is the shortlex-least
+subset of the intent whose common objects are the extent (every other such subset is
+shortlex-greater); with an empty extent it is the whole intent, i.e. all properties -/
+theorem C18_minimal_first_attribute {K : Ctx} (hK : K.WF) {k : Nat} {c : LConcept}
+    (hc : (mkLattice K)[k]? = some c) :
+    (c.extent ≠ 0 → ∃ h, conceptMinimal K (mkLattice K) k = some h ∧ h ⊆ᵇ c.intent ∧
+      K.extentOf h = c.extent ∧
+      ∀ b, b ⊆ᵇ c.intent → K.extentOf b = c.extent → b = h ∨ shortlexLt K.m h b) ∧
+    (c.extent = 0 → conceptMinimal K (mkLattice K) k = some c.intent ∧ c.intent = full K.m) := by
+  have hcon := C18_lattice_isConcept hK hc
+  rw [(C18_minimal_eq_head K _ hc).1]
+  constructor
+  · intro he
+    obtain ⟨_, h, hh, h1, h2, h3⟩ := C18_minimal_head hK hcon he
+    exact ⟨h, hh, h1, h2, h3⟩
+  · intro he
+    rw [he, C18_empty_extent_head]
+    exact ⟨rfl, (C18_empty_extent_position hK hc he).2⟩
+
+/-- the infimum's `minimal()`: all properties when no object has all properties; otherwise the
+ordinary shortlex-least generator (the override defers to `Concept.minimal`) -/
+theorem C18_infimum_minimal {K : Ctx} (hK : K.WF) :
+    ∃ c, (mkLattice K)[0]? = some c ∧ c.extent = K.doubleObj 0 ∧
+      (c.extent = 0 → conceptMinimal K (mkLattice K) 0 = some (full K.m)) ∧
+      (c.extent ≠ 0 → conceptMinimal K (mkLattice K) 0 = (minimize K c.extent c.intent).head? ∧
+        ∃ h, conceptMinimal K (mkLattice K) 0 = some h ∧ K.extentOf h = c.extent ∧
+          ∀ b, b ⊆ᵇ c.intent → K.extentOf b = c.extent → b = h ∨ shortlexLt K.m h b) := by
+  obtain ⟨c, hc, hce⟩ := (mkLattice_spec hK).get_zero
+  obtain ⟨h1, h2⟩ := C18_minimal_first_attribute hK hc
+  refine ⟨c, hc, hce, fun he => ?_, fun he => ⟨(C18_minimal_eq_head K _ hc).1, ?_⟩⟩
+  · obtain ⟨a, b⟩ := h2 he
+    rw [a, b]
+  · obtain ⟨h, a, _, b, d⟩ := h1 he
+    exact ⟨h, a, b, d⟩
+
+/-- `attributes()` of a concept of `Context.lattice` with non-empty extent: exactly the subsets of its
+intent whose common objects are its extent -/
+theorem C18_lattice_attributes {K : Ctx} (hK : K.WF) {k : Nat} {c : LConcept}
+    (hc : (mkLattice K)[k]? = some c) (he : c.extent ≠ 0) (b : Nat) :
+    b ∈ conceptAttributes K (mkLattice K) k ↔ b ⊆ᵇ c.intent ∧ K.extentOf b = c.extent := by
+  unfold conceptAttributes
+  rw [hc]
+  exact C18_attributes hK (C18_lattice_isConcept hK hc) he
+
+/-- every yielded property set regenerates the concept: `lattice(b) is c` -/
+theorem C18_lattice_regenerates {K : Ctx} (hK : K.WF) {k : Nat} {c : LConcept}
+    (hc : (mkLattice K)[k]? = some c) {b : Nat} (hb : b ∈ conceptAttributes K (mkLattice K) k) :
+    lookupProperties K (mkLattice K) b = some k := by
+  unfold conceptAttributes at hb
+  rw [hc] at hb
+  rw [C18_regenerates_lookup _ hb (C18_lattice_isConcept hK hc)]
+  exact (mkLattice_spec hK).find_get hc
+
+/-- in particular `lattice(c.minimal()) is c` -/
+theorem C18_minimal_regenerates {K : Ctx} (hK : K.WF) {k : Nat} {c : LConcept}
+    (hc : (mkLattice K)[k]? = some c) :
+    ∃ h, conceptMinimal K (mkLattice K) k = some h ∧ lookupProperties K (mkLattice K) h = some k := by
+  rw [(C18_minimal_eq_head K _ hc).2]
+  cases hl : conceptAttributes K (mkLattice K) k with
+  | nil =>
+    exfalso
+    have hi : c.intent ∈ conceptAttributes K (mkLattice K) k := by
+      unfold conceptAttributes
+      rw [hc]
+      show c.intent ∈ minimize K c.extent c.intent
+      by_cases he : c.extent = 0
+      · rw [he, C18_empty_extent]; simp
+      · exact (C18_minimal_head hK (C18_lattice_isConcept hK hc) he).1
+    rw [hl] at hi
+    cases hi
+  | cons h t =>
+    exact ⟨h, rfl, C18_lattice_regenerates hK hc (by rw [hl]; simp)⟩
+
+/-! ### non-vacuity on lattices -/
+
+/-- the lattice of the example: the infimum has no objects, its `minimal()` is all properties although
+`{0, 2}` already has no common object -/
+example : (mkLattice C18_exK).map (fun c => (c.extent, c.intent)) =
+    [(0b000, 0b111), (0b010, 0b011), (0b100, 0b110), (0b011, 0b001), (0b110, 0b010), (0b111, 0b000)] := by
+  decide +kernel
+example : (List.range 6).map (conceptMinimal C18_exK (mkLattice C18_exK)) =
+    [some 0b111, some 0b011, some 0b100, some 0b001, some 0b010, some 0b000] := by decide +kernel
+example : C18_exK.extentOf 0b101 = 0 := by decide +kernel
+example : conceptAttributes C18_exK (mkLattice C18_exK) 2 = [0b100, 0b110] := by decide +kernel
+
+/-- an infimum WITH objects (object 3 has every property): here `Infimum.minimal` must defer to
+`Concept.minimal` and yields `{3}`, not the full intent -/
+def C18_exK2 : Ctx := mkCtx 4 4 #[0b0011, 0b0101, 0b0101, 0b1111]
+example : C18_exK2.WF := mkCtx_WF _ _ _ rfl (by decide)
+example : ((mkLattice C18_exK2)[0]?).map (fun c => (c.extent, c.intent)) = some (0b1000, 0b1111) := by
+  decide +kernel
+example : conceptMinimal C18_exK2 (mkLattice C18_exK2) 0 = some 0b1000 := by decide +kernel
+example : conceptAttributes C18_exK2 (mkLattice C18_exK2) 0 =
+    [0b1000, 0b1001, 0b0110, 0b1010, 0b1100, 0b0111, 0b1011, 0b1101, 0b1110, 0b1111] := by decide +kernel
+
 end FCA
 
 #print axioms FCA.C18_powerset_mem
@@ -158,3 +319,11 @@ end FCA
 #print axioms FCA.C18_regenerates
 #print axioms FCA.C18_regenerates_lookup
 #print axioms FCA.C18_regenerates_intent
+#print axioms FCA.C18_shortlex_asymm
+#print axioms FCA.C18_empty_extent_position
+#print axioms FCA.C18_minimal_eq_head
+#print axioms FCA.C18_minimal_first_attribute
+#print axioms FCA.C18_infimum_minimal
+#print axioms FCA.C18_lattice_attributes
+#print axioms FCA.C18_lattice_regenerates
+#print axioms FCA.C18_minimal_regenerates
